@@ -166,7 +166,7 @@ theorem runCore_invD (p : Program) (ff0 : Bool) (hwf : wf p = true) :
     · intro f ds hm; simp [initRS] at hm
     · simp [initRS]
   · rintro st s _ ⟨T, A, U, h⟩ hok
-    exact ⟨_, _, _, h.stage hwf st hok⟩
+    exact ⟨_, _, _, h.stage hwf st hok.ok⟩
   · rintro s c rest hinv ⟨T, A, U, h⟩ hs
     exact ⟨_, _, _, h.pop hwf hinv c rest hs⟩
   · rintro s _ ⟨T, A, U, h⟩ _ _ _
